@@ -96,7 +96,10 @@ class MPBFixedFormat_maxval(Contract):
             # B6: the extreme member of the requested sign
             'B6_pos': implies(not s, same_real(r._real, self.pos_maxval)),
             'B6_neg': implies(s, same_real(r._real, self.neg_maxval)),
-            'member': mpbfx_inF(self, r),
+            # the returned extreme value is itself a member; stated separately for a zero bound
+            # (MPBFixedFormat accepts pos_maxval = -0 even when -0 is not representable)
+            'member': implies(s or self.pos_maxval._c > 0, mpbfx_inF(self, r)),
+            'member_zero_bound': implies(not s and self.pos_maxval._c == 0, mpbfx_inF(self, r)),
         }
 
     def raises(self, s):
@@ -125,8 +128,11 @@ class MPBFixedFormat_minval(Contract):
             'sign': r._real._s == s,
             'B6_ord': fx_ord(self._mp_fmt, r._real) == ite(s, -1, 1),
             # the value of least magnitude is a member (ordinal within the range of the format)
-            'B6_in_range': fx_ord(self._mp_fmt, self.neg_maxval) <= fx_ord(self._mp_fmt, r._real)
-                           and fx_ord(self._mp_fmt, r._real) <= fx_ord(self._mp_fmt, self.pos_maxval),
+            'B6_in_range': implies(s or self.pos_maxval._c > 0,
+                                   self._neg_maxval_ord <= fx_ord(self._mp_fmt, r._real)
+                                   and fx_ord(self._mp_fmt, r._real) <= self._pos_maxval_ord),
+            'B6_in_range_zero_bound': implies(not s and self.pos_maxval._c == 0,
+                                              fx_ord(self._mp_fmt, r._real) <= self._pos_maxval_ord),
         }
 
     def raises(self, s):
@@ -154,10 +160,13 @@ class MPBFixedFormat_infval(Contract):
         return {
             'finite': fl_finite(r),
             # the "next" value after the maximum: one ordinal step beyond
-            'pos': implies(not s, mult_of(r._real, self.nmin + 1)
-                           and fx_ord(self._mp_fmt, r._real) == fx_ord(self._mp_fmt, self.pos_maxval) + 1),
-            'neg': implies(s, mult_of(r._real, self.nmin + 1)
-                           and fx_ord(self._mp_fmt, r._real) == fx_ord(self._mp_fmt, self.neg_maxval) - 1),
+            'pos_grid': implies(not s, mult_of(r._real, self.nmin + 1)),
+            'neg_grid': implies(s, mult_of(r._real, self.nmin + 1)),
+            'pos': implies(not s and not self.pos_maxval._s, fx_ord(self._mp_fmt, r._real) == self._pos_maxval_ord + 1),
+            'neg': implies(s and self.neg_maxval._s, fx_ord(self._mp_fmt, r._real) == self._neg_maxval_ord - 1),
+            # zero bounds of the opposite sign (pos_maxval = -0, neg_maxval = +0 are accepted by the constructor)
+            'pos_zero_bound': implies(not s and self.pos_maxval._s, fx_ord(self._mp_fmt, r._real) == self._pos_maxval_ord + 1),
+            'neg_zero_bound': implies(s and not self.neg_maxval._s, fx_ord(self._mp_fmt, r._real) == self._neg_maxval_ord - 1),
         }
 
     def raises(self, s):
